@@ -213,6 +213,13 @@ v('prefix-C13-cleanup-first', ['C13'], AUF, """            let spec = s.make_par
                 return Err(Error::MissingDefaultSuccessor);
             }
             s.cleanup();""", "            s.cleanup();", 'C13.R1/AutomatonBuilder::build/cleanup-before-validate')
+v('prefix-C13-cleanup-in-place', ['C13'], AUF, """        for (i, s) in self.states.iter().enumerate() {
+            // work on a copy: the builder keeps the transitions and default
+            // successors given by the caller, so it can be extended and built again
+            let mut s = s.clone();""", "        for (i, s) in self.states.iter_mut().enumerate() {", 'C13.R5/build/cleanup-acts-on-a-copy')
+v('c13-unchecked-in-place', ['C13'], AUF, """        for (i, s) in self.states.iter().enumerate() {
+            let mut s = s.clone();
+            s.cleanup();""", "        for (i, s) in self.states.iter_mut().enumerate() {\n            s.cleanup();", 'C13.R5/build_unchecked/cleanup-acts-on-a-copy')
 v('c13-no-completeness', ['C13'], AUF, """            if s.default_successor.is_none() && !spec.empty_complement() {
                 return Err(Error::MissingDefaultSuccessor);
             }
